@@ -1,21 +1,21 @@
 SPECIFICATION Spec
 CONSTANTS
-  Inst = {a, b, c}
+  Inst = {a, b}
   Shard = {11, 21}
-  MaxStreams = 3
-  MaxEnv = 3
-  MaxMsg = 0
+  MaxStreams = 2
+  MaxEnv = 1
+  MaxMsg = 1
   AllowHold = FALSE
   AllowBreak = FALSE
   AllowStall = FALSE
   Cap = 1
   AckDropSilently = FALSE
-  AllowTopo = TRUE
-  Warm = FALSE
+  AllowTopo = FALSE
+  Warm = TRUE
   AllowRemove = TRUE
   FixSenderPrune = TRUE
   FixGuardedDelete = TRUE
   FixOpening = TRUE
   FixPeerKey = TRUE
-INVARIANTS NoSilentLoss TypeOK TableSound HealthyListed NoDup MsgSound FixpointOK
+INVARIANTS NoSilentLoss MsgOrder TypeOK TableSound HealthyListed NoDup MsgSound FixpointOK
 CHECK_DEADLOCK FALSE
